@@ -37,7 +37,7 @@ ANCHORS = [("geometry_tools/automata/fsa.py", q) for q in (
     "FSA._build_in_dict", "FSA.add_vertices", "FSA.add_edges",
     "FSA.delete_vertex", "FSA.delete_vertices", "FSA.recurrent",
     "FSA.rename_generators", "_from_gap_record", "load_builtin",
-    "free_automaton", "_hidden_vertices")] + [
+    "free_automaton", "_hidden_vertices", "load_kbmag_file")] + [
     ("geometry_tools/automata/gap_parse.py", q) for q in (
         "parse_record", "parse_contents", "parse_list", "parse_quote")] + [
     ("geometry_tools/automata/kbmag_utils.py", "build_dict")]
@@ -501,8 +501,20 @@ def wl_kbmag(run, rng, idx):
     text, names, table, init, expected, feats = gen_record_text(rng)
     case = {"text": text, "names": names, "table": table, "initial": init}
     run.current_case = case
-    record, _ = gap_parse.parse_record(text)
-    F = fsamod._from_gap_record(record)
+    if idx % 3 == 2:
+        # the file route: load_kbmag_file reads the same text from disk
+        import tempfile, os
+        fd, path = tempfile.mkstemp(suffix=".wa", prefix="gtmon-c09-")
+        try:
+            with os.fdopen(fd, "w") as f:
+                f.write(text)
+            F = fsamod.load_kbmag_file(path)
+        finally:
+            os.unlink(path)
+        feats.add("file-route")
+    else:
+        record, _ = gap_parse.parse_record(text)
+        F = fsamod._from_gap_record(record)
     if F is None:
         return mon.fail("kbmag/no-automaton", "no FSA built from a record with isFSA := true", case)
     got = {v: dict(nb) for v, nb in F.graph_dict.items()}
